@@ -26,4 +26,23 @@ Script_Links == <<
     [name |-> "CreateFeature", owner |-> 5, data |-> 3, t |-> 1, new |-> 11, out |-> "ok"],
     Cr("block", 0, "n2", 12), Cr("array", 12, "n1", 13), Cr("group", 12, "n1", 14) >>
 Limit_Links == L(2, 2, 3, 1, 1, 1, 2, 2, 0)
+
+\* C20: a block with internal structure (group list, tag reference + feature, multi-tag with positions/extents,
+\* nested sources linked from an array), a nested section with a property, a second (empty) block as destination
+LA(o, l, x) == [name |-> "LinkAppend", o |-> o, l |-> l, x |-> x, out |-> "ok"]
+Script_Copy == <<
+    Cr("block", 0, "n1", 1), Cr("array", 1, "n1", 2), Cr("array", 1, "n2", 3), Cr("group", 1, "n1", 4),
+    Cr("tag", 1, "n1", 5),
+    [name |-> "CreateMTag", owner |-> 1, n |-> "n1", t |-> 1, pos |-> 2, ext |-> 3, new |-> 6, out |-> "ok"],
+    Cr("source", 1, "n1", 7), Cr("source", 7, "n2", 8),
+    [name |-> "CreateFeature", owner |-> 5, data |-> 3, t |-> 1, new |-> 9, out |-> "ok"],
+    LA(4, "data_arrays", 2), LA(5, "references", 3), LA(2, "sources", 8), LA(4, "tags", 5),
+    Cr("section", 0, "n1", 10), Cr("section", 10, "n2", 11),
+    [name |-> "CreateProperty", owner |-> 11, n |-> "n1", v |-> 1, new |-> 12, out |-> "ok"],
+    Cr("block", 0, "n2", 13) >>
+Limit_Copy == L(3, 2, 4, 2, 2, 2, 4, 4, 2)
+\* ... followed by a copy of the whole block (fresh ids) and of the section tree: every single mutation of either side
+Script_Copied == Script_Copy \o <<
+    [name |-> "Copy", kind |-> "block", src |-> 1, dest |-> 0, n |-> "n3", keep |-> FALSE, new |-> 14, out |-> "ok"],
+    [name |-> "Copy", kind |-> "section", src |-> 10, dest |-> 0, n |-> "n2", keep |-> FALSE, new |-> 23, out |-> "ok"] >>
 =============================================================================
